@@ -26,7 +26,7 @@ root-queue array and (pointer-sized loads/stores only) anywhere else.  This modu
      scheduler is given, it only takes steps of SLane.  The need_override wakeup of a push onto a non-empty list, which SLane does
      not model, is replayed by SLaneR.override_step and counted (steps_outside_SLane).
 
-correspond(ctx) returns the usual dict; lib/props/c01.py and c02.py merge it into the result of lanes.run."""
+correspond(ctx) returns the usual dict; lib/props/c01.py and c02.py add it as one more part of lanes.merge([...])."""
 import os
 import re
 
@@ -744,23 +744,6 @@ def correspond(ctx, tag="c01_slane"):
                     "distinct = distinct sets of automaton branches taken by a thread trace",
             "samples": samples, "distribution": dist_all, "traces_validated_against_impl": len(jobs), "notes": notes,
             "mismatches": mism[:20], "failures": fails[:20]}
-
-
-def merge(base, extra):
-    """fold the result of correspond() into the result of another correspond() of the same check (lanes.run)"""
-    out = dict(base)
-    out["evaluations"] = int(base.get("evaluations", 0)) + int(extra.get("evaluations", 0))
-    out["distinct_nontrivial"] = int(base.get("distinct_nontrivial", 0)) + int(extra.get("distinct_nontrivial", 0))
-    out["rule"] = (base.get("rule", "") + " || serial-lane trace conformance: " + extra.get("rule", "")).strip()
-    out["samples"] = list(base.get("samples", []))[:6] + list(extra.get("samples", []))[:3]
-    dist = dict(base.get("distribution", {}))
-    dist["slane_conformance"] = extra.get("distribution", {})
-    out["distribution"] = dist
-    out["traces_validated_against_impl"] = int(extra.get("traces_validated_against_impl", 0))
-    out["mismatches"] = list(base.get("mismatches", [])) + list(extra.get("mismatches", []))
-    out["failures"] = list(base.get("failures", [])) + list(extra.get("failures", []))
-    out["notes"] = list(base.get("notes", [])) + list(extra.get("notes", []))
-    return out
 
 
 def replay(ctx, obj):
